@@ -72,6 +72,8 @@ pub struct Tr {
     pub bound_args: HashMap<String, Vec<usize>>,
     pub abort_preds: Vec<String>,
     pub ctor_no_call: Vec<String>,
+    /// publicness of the arguments of the call that is being resolved (CALL-SITE rule for automatically analysed callees)
+    pub pending_arg_pub: Option<Vec<bool>>,
 }
 
 fn type_name(t: &syn::Type) -> Option<String> {
@@ -167,17 +169,76 @@ impl Tr {
     /// same fields are public).  The analysis is memoised per op: a later caller whose `self` lacks one of these paths gets
     /// a `secArg` node from `sec_arg_check` (rejected), never a silently wrong skeleton.
     pub fn auto_fn_pub(&mut self, ty: Option<&str>, name: &str, inherit: Vec<String>) -> String {
-        let op = match ty {
+        let argpub = self.pending_arg_pub.take();
+        let base = match ty {
             Some(t) => format!("auto_{t}_{name}"),
             None => format!("auto_{name}"),
         };
+        self.ensure_auto_cfg(&base, ty, name, inherit.clone());
+        // phase 1: every parameter secret (plus the inherited `self.*` paths).  If the helper is accepted like that, no caller
+        // has to pass anything public.
+        if self.analyse(&base).is_ok() && !self.skel_rejected(&base, 0) {
+            return base;
+        }
+        // phase 2 (CALL-SITE): the helper needs public parameters (a loop bound, a guard): analyse a variant in which exactly the
+        // parameters that THIS call site passes public arguments for are public.  The variant is named after them, so a call
+        // site with other public arguments gets its own variant, and `sec_arg_check` verifies every call against its variant.
+        let mut names = vec![];
+        if let (Some(ap), Some(r)) = (argpub, self.repo.iter().find(|r| r.impl_ty.as_deref() == ty && r.name == name)) {
+            for (k, p) in r.params.iter().enumerate() {
+                let mut v = vec![];
+                pat_idents(p, &mut v);
+                if let (Some(true), Some((n, _, _))) = (ap.get(k).copied(), v.first()) {
+                    names.push(n.clone());
+                }
+            }
+        }
+        if names.is_empty() {
+            return base;
+        }
+        let op = format!("{base}__pub_{}", names.join("_"));
+        let mut public = inherit;
+        public.extend(names);
+        self.ensure_auto_cfg(&op, ty, name, public);
+        op
+    }
+
+    fn ensure_auto_cfg(&mut self, op: &str, ty: Option<&str>, name: &str, public: Vec<String>) {
         if self.cfg_fns.iter().any(|f| f.op == op) {
-            return op;
+            return;
         }
         let file = self.repo.iter().find(|r| r.impl_ty.as_deref() == ty && r.name == name).map(|r| r.file.clone()).unwrap_or_default();
-        self.cfg_fns.push(FnCfg { op: op.clone(), listed: false, negative_control: false, file, impl_ty: ty.map(|s| s.to_string()), fn_name: name.to_string(),
-                                  public: inherit, callee_as: vec![], returns_iter: false, auto: true });
-        op
+        self.cfg_fns.push(FnCfg { op: op.to_string(), listed: false, negative_control: false, file, impl_ty: ty.map(|s| s.to_string()), fn_name: name.to_string(),
+                                  public, callee_as: vec![], returns_iter: false, auto: true });
+    }
+
+    /// the skeleton of `op` (through call nodes) contains a rejected node
+    pub fn skel_rejected(&self, op: &str, depth: usize) -> bool {
+        fn go(tr: &Tr, ns: &[Node], depth: usize) -> bool {
+            ns.iter().any(|n| match n {
+                Node::ExtVartime(..) | Node::SecArg(..) | Node::IfSec { .. } | Node::LoopSec { .. } | Node::WhileSec { .. } | Node::MatchSec { .. } | Node::ExitSec(_) => true,
+                Node::Call { op } => depth < 16 && tr.skel_rejected(op, depth + 1),
+                Node::LoopPub { body, .. } | Node::CallInline { body, .. } | Node::AbortIf { body, .. } => go(tr, body, depth),
+                Node::IfPub { t, e, .. } | Node::OneHot { t, e, .. } => go(tr, t, depth) || go(tr, e, depth),
+                _ => false,
+            })
+        }
+        self.done.get(op).map_or(true, |s| go(self, &s.nodes, depth))
+    }
+
+    /// the skeleton of `op` (through call nodes) contains an abort point
+    pub fn skel_has_abort(&self, op: &str, depth: usize) -> bool {
+        fn go(tr: &Tr, ns: &[Node], depth: usize) -> bool {
+            ns.iter().any(|n| match n {
+                Node::AbortIf { .. } => true,
+                Node::Call { op } => depth < 16 && tr.skel_has_abort(op, depth + 1),
+                Node::LoopPub { body, .. } | Node::CallInline { body, .. } | Node::LoopSec { body, .. } | Node::WhileSec { body, .. } => go(tr, body, depth),
+                Node::IfPub { t, e, .. } | Node::OneHot { t, e, .. } | Node::IfSec { t, e, .. } => go(tr, t, depth) || go(tr, e, depth),
+                Node::MatchSec { arms, .. } => arms.iter().any(|a| go(tr, a, depth)),
+                _ => false,
+            })
+        }
+        self.done.get(op).map_or(false, |s| go(self, &s.nodes, depth))
     }
 
     /// analyse one configured function (memoised); Err = cannot be analysed
@@ -203,7 +264,7 @@ impl Tr {
         let mut cx = FnCtx {
             op: op.to_string(), file: cfg.file.clone(), impl_ty: cfg.impl_ty.clone(),
             public_paths: cfg.public.iter().cloned().collect(), const_generics: rf.const_generics.iter().cloned().collect(),
-            scopes: vec![], secret: HashSet::new(), closures: vec![], loops: vec![], closure_pub_params: HashMap::new(), array_lits: HashMap::new(), depth_loop: 0, depth_sec: 0, depth_branch: 0,
+            scopes: vec![], secret: HashSet::new(), closures: vec![], loops: vec![], closure_pub_params: HashMap::new(), array_lits: HashMap::new(), choice_vars: HashSet::new(), iter_vars: HashMap::new(), allow_return_at: None, depth_loop: 0, depth_sec: 0, depth_branch: 0,
             emit: false, changed: false, direct_stmt: None,
         };
         let mut param_names = vec![];
@@ -236,7 +297,12 @@ impl Tr {
             nodes.push(Node::Site(self.new_site(&cx, if anchored { "fn" } else { "fn-unanchored" }, pos, end_of(&block), &header)));
             cx.push_scope();
             let nst = block.stmts.len();
+            if !cfg.returns_iter {
+                // function body with GUARD-RETURN handling (see walk_fn_stmts)
+                nodes.extend(self.walk_fn_stmts(&mut cx, &block.stmts));
+            }
             for (k, s) in block.stmts.iter().enumerate() {
+                if !cfg.returns_iter { break; }
                 if cfg.returns_iter && k + 1 == nst {
                     if let syn::Stmt::Expr(e, None) = s {
                         let mut pend = vec![];
@@ -356,6 +422,7 @@ fn main() {
         sites: vec![], loops: vec![], conds: vec![], secrets: vec![], notes: vec![], errors: vec![],
         vt_suffixes: strs(&cfg["vartime_methods"]["suffixes"]), vt_names: strs(&cfg["vartime_methods"]["names"]).into_iter().collect(),
         bound_args, abort_preds: strs(&cfg["abort_predicates"]), ctor_no_call: strs(&cfg["constructors_no_call"]),
+        pending_arg_pub: None,
     };
     let todo: Vec<String> = tr.cfg_fns.iter().filter(|f| f.listed || f.negative_control).map(|f| f.op.clone()).collect();
     let mut failed = false;
